@@ -33,7 +33,7 @@ import (
 // responsive peers are real sockets over a real transport.
 
 type spec struct {
-	Kind   string `json:"kind"` // matrix | dl-block | dl-ready | nodl | be | multi | fnp-none | fnp-leave | stale | be-multi | be-race | dl-churn | dl-inherit | dl-cross | nodl-leave | dl-behind | dl-retry | dl-flap
+	Kind   string `json:"kind"` // matrix | dl-block | dl-ready | nodl | be | multi | fnp-none | fnp-leave | stale | be-multi | be-race | dl-churn | dl-inherit | dl-cross | nodl-leave | dl-behind | dl-retry | dl-flap | dl-pair
 	Proto  string `json:"proto"`
 	Obj    string `json:"obj"`            // sock | ctx
 	Op     string `json:"op,omitempty"`   // send | recv
@@ -94,6 +94,9 @@ func (s spec) variant() string {
 	}
 	if s.Kind == "dl-flap" {
 		v += "/" + flapModeName[s.Mode]
+	}
+	if s.Kind == "dl-pair" {
+		v += "/first-of-a-concurrent-timed-send-and-recv"
 	}
 	return v
 }
@@ -551,6 +554,9 @@ func genCases(rnd *rand.Rand, thorough bool) []mon.CaseSpec {
 	// ==== fifth part (appended): peers come and go / the request is retransmitted for as long as the
 	// timed call is parked
 	genFlap(rnd, thorough, reps, add, pickQ)
+	// ==== sixth part (appended): a timed Send and a timed Recv in progress at the same time on the
+	// same object, one deadline firing while the other call is still parked
+	genPair(rnd, thorough, reps, add, pickQ)
 	return cases
 }
 
@@ -588,6 +594,8 @@ func runCase(c *mon.Case, sp spec) {
 		runRetry(c, sp)
 	case "dl-flap":
 		runFlap(c, sp)
+	case "dl-pair":
+		runPair(c, sp)
 	default:
 		panic("unknown kind " + sp.Kind)
 	}
